@@ -169,6 +169,7 @@ def run_presence(ctx, st):
     except OutOfDomain:
         ctx.reach('ood'); ctx.reach(); return
     except Exception as e:      # noqa
+        __import__('vxlib.symx.core', fromlist=['x']).proxy_rejected(e)
         # label by the optional keys present on this path, so that a key that breaks decoding is named
         here = [k for k in keys if bool(present[k])]
         culprit = _culprit(here)
@@ -271,6 +272,7 @@ def run_ti(ctx, st):
         except OutOfDomain:
             ctx.reach('ood'); ctx.reach(); return
         except Exception as e:      # noqa
+            __import__('vxlib.symx.core', fromlist=['x']).proxy_rejected(e)
             ctx.check('C16/trace-identifier/%s' % nsname, False, '%s: %s' % (type(e).__name__, e)); ctx.reach(); return
     finally:
         if saved[0] is not None and saved[1] is not None:
@@ -368,6 +370,7 @@ def run_dm(ctx, st):
     try:
         out = OsLogEvent.parse_decomposed(dm, dict(STRINGS))
     except Exception as e:      # noqa
+        __import__('vxlib.symx.core', fromlist=['x']).proxy_rejected(e)
         missing = []
         for sub, keys in (('p', SEG_P), ('a', SEG_A)):
             if sub in seg_vals:
